@@ -13,7 +13,7 @@ from __future__ import annotations
 import ast
 
 from ..absint import Event
-from ..actions import ActionAnalysis, describe_mut, raise_key, strip, trail_text
+from ..actions import ActionAnalysis, describe_mut, guard_signature, raise_key, strip, trail_text
 from ..model import Program
 from ..report import Report
 
@@ -50,7 +50,11 @@ def typestate(R: Report, rule: str, f, engine, results, subject: str) -> None:
             if ev is None or ev.kind != "raise":
                 continue
             tail = flat_tail(d.events)
-            construct = raise_key(ev)
+            # what the deciding guard of this raise is about (last decision taken on the path before the raise)
+            conds = [e for e in tail if e.kind == "cond" and e is not ev]
+            cand_txts = [str(c_.args.get("term", "")) + " " + c_.name for c_ in reversed(conds[-3:])] if conds else [strip(t_[1]) for t_ in reversed(pr.trail[-3:])]
+            sig = next((g_ for g_ in (guard_signature(t_).split("+")[0] for t_ in cand_txts) if g_ != "-"), "-")
+            construct = raise_key(ev) + (f" [guard on {sig}]" if ev.name != "AssertionError" else "")
             if d.dirty:
                 R.fail(
                     rule, f, ev.where(), f"{construct} after {describe_mut(d.dirty_at, ev)}",
